@@ -170,7 +170,8 @@ pub fn exec(op: &str, a: &[&str]) -> Option<String> {
         ("sun.events", [la, lo, day]) => {
             let (lat, lon) = (parse_f(la)?, parse_f(lo)?);
             let date = ast::date_of(day.parse().ok()?)?;
-            let coords = Coordinates::new(lat, lon)?;
+            // a pair the generator wrote is within the documented ranges: a refusal is an answer, not a bad op
+            let Some(coords) = Coordinates::new(lat, lon) else { return Some("rejected".to_string()) };
             let r = catch(|| {
                 let ctx = Context::from_coords(coords);
                 let loc = ctx.locale.clone();
@@ -200,7 +201,8 @@ pub fn exec(op: &str, a: &[&str]) -> Option<String> {
             if stride <= 0 {
                 return None;
             }
-            let coords = Coordinates::new(lat, lon)?;
+            // a pair the generator wrote is within the documented ranges: a refusal is an answer, not a bad op
+            let Some(coords) = Coordinates::new(lat, lon) else { return Some("rejected".to_string()) };
             let r = catch(|| scan(coords, first, stride, last));
             Some(r.unwrap_or_else(|p| p))
         }
